@@ -683,8 +683,73 @@ func genWalletTx(g *hx.Gen) {
 	}
 }
 
+// m-of-n co-signing from keystores: every member has its own keystore file holding its key and the
+// multi-sig account (account.AddMultiSig); the transaction travels through m members in random order, each
+// re-opening the wallet from disk (account.Open) and adding one signature with Client.Sign; the node side
+// is the real checkTransactionSignature (op wtx).
+func genCosign(g *hx.Gen) {
+	r := g.R
+	dir, err := os.MkdirTemp("", "c37-cosign")
+	if err != nil {
+		panic("harness: tempdir")
+	}
+	defer os.RemoveAll(dir)
+	pwd := func() []byte { return []byte("pw") }
+	round := 0
+	for n := 2; n <= 6; n++ {
+		for m := 1; m <= n; m++ {
+			for rep := 0; rep < g.N(1, 6); rep++ {
+				round++
+				var members []*account.Account
+				var pubs []*crypto.PublicKey
+				for i := 0; i < n; i++ {
+					a := newAccount(r)
+					members = append(members, a)
+					pubs = append(pubs, a.PublicKey)
+				}
+				paths := make([]string, n)
+				var ms *account.Account
+				for i, a := range members {
+					paths[i] = filepath.Join(dir, fmt.Sprintf("k%d-%d.dat", round, i))
+					if _, err := account.CreateFromAccount(paths[i], pwd(), a); err != nil {
+						panic("harness: keystore")
+					}
+					acc, err := account.AddMultiSig(paths[i], pwd(), m, append([]*crypto.PublicKey{}, pubs...))
+					if err != nil {
+						panic("harness: AddMultiSig: " + err.Error())
+					}
+					ms = acc
+				}
+				o := &txOp{Variant: "tx", Ttype: byte(ctypes.TransferAsset), Pver: 0, Lock: uint32(r.Intn(1000))}
+				o.Refs = []hashIn{{Pfx: ms.ProgramHash[0], Hash: common.ToCodeHash(ms.RedeemScript).Bytes()}}
+				o.Attrs = []attrIn{{Usage: byte(ctypes.Nonce), Data: r.Bytes(8)}}
+				tx, _, ok := buildTx(o, []progIn{{Code: ms.RedeemScript}})
+				if !ok {
+					panic("harness: buildTx")
+				}
+				order := rperm(r, n)
+				for k := 0; k < m; k++ {
+					cl, err := account.Open(paths[order[k]], pwd())
+					if err != nil {
+						panic("harness: Open: " + err.Error())
+					}
+					if tx, err = cl.Sign(tx); err != nil {
+						panic("harness: co-sign: " + err.Error())
+					}
+				}
+				var sp []progIn
+				for _, p := range tx.Programs() {
+					sp = append(sp, progIn{Code: p.Code, Param: p.Parameter})
+				}
+				g.Emit("wtx%s", txsigLine(o, sp)[5:])
+			}
+		}
+	}
+}
+
 func gen(g *hx.Gen) {
 	mrand.Seed(int64(g.Seed))
+	genCosign(g)
 	genWalletTx(g)
 	genKeystore(g)
 	genCan(g)
